@@ -117,7 +117,10 @@ type gsim struct {
 	completion []int
 	clean      bool
 	cwdMode    bool
-	hostileRun bool
+	// overrides given on the command line (nil: none)
+	importsOverride *bool
+	wktOverride     *bool
+	hostileRun      bool
 }
 
 type genFile struct {
@@ -463,13 +466,21 @@ func pluginNameOf(configName string) string {
 // expectedToGenerate is the set of files a plugin must be asked to generate.
 func (m *gsim) expectedToGenerate(p *pluginSpec, image bufimage.Image) map[string]bool {
 	out := map[string]bool{}
+	// command-line overrides (--include-imports / --include-wkt, also =false) win over the template
+	includeImports, includeWKT := p.includeImports, p.includeWKT
+	if m.importsOverride != nil {
+		includeImports = *m.importsOverride
+	}
+	if m.wktOverride != nil {
+		includeWKT = *m.wktOverride
+	}
 	for _, f := range image.Files() {
 		switch {
 		case !f.IsImport():
 			out[f.Path()] = true
-		case !p.includeImports:
+		case !includeImports:
 		case datawkt.Exists(f.Path()):
-			if p.includeWKT {
+			if includeWKT {
 				out[f.Path()] = true
 			}
 		default:
@@ -553,6 +564,16 @@ func Run(tp *tape.Tape, env *engine.Env) *engine.Outcome {
 	// sometimes the project directory is the working directory and the base out directory is ".":
 	// a relative and an absolute out can then be the same directory
 	m.cwdMode = tp.Draw("g.cwd", 3) == 2
+	for _, target := range []**bool{&m.importsOverride, &m.wktOverride} {
+		switch tp.Draw("g.override", 4) {
+		case 2:
+			v := true
+			*target = &v
+		case 3:
+			v := false
+			*target = &v
+		}
+	}
 	yaml := m.drawPlugins()
 	genFile, err := bufconfig.ReadBufGenYAMLFile(strings.NewReader(yaml))
 	if err != nil {
@@ -612,7 +633,14 @@ func Run(tp *tape.Tape, env *engine.Env) *engine.Outcome {
 		if m.cwdMode {
 			baseOut = "."
 		}
-		genErr = generator.Generate(ctx, container, genFile.GenerateConfig(), []bufimage.Image{image}, bufgen.GenerateWithBaseOutDirPath(baseOut))
+		opts := []bufgen.GenerateOption{bufgen.GenerateWithBaseOutDirPath(baseOut)}
+		if m.importsOverride != nil {
+			opts = append(opts, bufgen.GenerateWithIncludeImportsOverride(*m.importsOverride))
+		}
+		if m.wktOverride != nil {
+			opts = append(opts, bufgen.GenerateWithIncludeWellKnownTypesOverride(*m.wktOverride))
+		}
+		genErr = generator.Generate(ctx, container, genFile.GenerateConfig(), []bufimage.Image{image}, opts...)
 	})
 	s.Run()
 	if s.Deadlocked {
